@@ -1,8 +1,8 @@
 """Proposed repairs for the genuine defects reported by C50 / C51 (NOT applied to /repo; kept here for the reviewer).
 
 Validated in a scratch worktree (git worktree of /repo HEAD + this patch, VERIF_REPO=<worktree>): C51 exits 0 at the quick
-tier and C50 reports only 'spurious overflow: status set although the scene fits' (no small repair proposed for that one);
-without the patch the checks report exactly the canonical keys listed below.
+tier (seeds 0, 1, 7) and C50 reports only 'spurious overflow: status set although the scene fits' (no small repair proposed
+for that one); without the patch the checks report exactly the canonical keys listed below.
 
  key (C51)  pid plugin indexes ctrl/ctrlrange by actuator id, actuator_length/velocity/force by actuator id and scans m->nu
             actuators ...                                                  -> plugin/actuator/pid.cc (Create, GetCtrl, ActDot, Compute)
@@ -10,6 +10,8 @@ without the patch the checks report exactly the canonical keys listed below.
             exact-filter formula instead of Euler ...                      -> src/engine/engine_support.c: mj_nextActivation
  key (C51)  actuator plugin with actlimited: actrange clamps the plugin-owned act slots ...   -> same hunk
  key (C51)  pid README: the ki activation variable is documented as the I term in units of force ... -> plugin/actuator/README.md
+ key (C51)  touch_grid plugin reads geom_bodyid[contact.geom] for every contact: flex contacts have geom = -1 ...
+                                                                           -> plugin/sensor/touch_grid.cc: TouchGrid::Compute
  key (C50)  mjv_updateScene leaves mjData's stack unbalanced               -> src/engine/engine_vis_visualize.c: addFlexBvhGeoms
  (side finding, no property key) composite cable with count="3 1 1" (two bodies) is rejected: "body 'B_1' not found in
             bodypair"                                                      -> src/user/user_composite.cc: AddCableBody
@@ -96,6 +98,31 @@ index 4176fe4f5..8494e73bf 100644
                                        config_.d_gain * error_dot +
                                        config_.i_gain * integral;
    }
+diff --git a/plugin/sensor/touch_grid.cc b/plugin/sensor/touch_grid.cc
+index 044bccdd9..d0a67bc08 100644
+--- a/plugin/sensor/touch_grid.cc
++++ b/plugin/sensor/touch_grid.cc
+@@ -272,6 +272,10 @@ void TouchGrid::Compute(const mjModel* m, mjData* d, int instance) {
+   int parent_body = m->body_weldid[m->site_bodyid[site_id]];
+   int parent_weld = m->body_weldid[parent_body];
+   for (int i = 0; i < d->ncon; i++) {
++    // flex contacts have no geoms (geom id -1)
++    if (d->contact[i].geom1 < 0 || d->contact[i].geom2 < 0) {
++      continue;
++    }
+     int body1 = m->body_weldid[m->geom_bodyid[d->contact[i].geom1]];
+     int body2 = m->body_weldid[m->geom_bodyid[d->contact[i].geom2]];
+     if (body1 == parent_weld || body2 == parent_weld) {
+@@ -296,6 +300,9 @@ void TouchGrid::Compute(const mjModel* m, mjData* d, int instance) {
+   // Get forces and positions in spherical coordinates.
+   int contact = 0;
+   for (int i = 0; i < d->ncon; i++) {
++    if (d->contact[i].geom1 < 0 || d->contact[i].geom2 < 0) {
++      continue;
++    }
+     int body1 = m->geom_bodyid[d->contact[i].geom1];
+     int weld1 = m->body_weldid[body1];
+     int body2 = m->geom_bodyid[d->contact[i].geom2];
 diff --git a/src/engine/engine_support.c b/src/engine/engine_support.c
 index bbfb47aee..e12e86196 100644
 --- a/src/engine/engine_support.c
